@@ -9,7 +9,7 @@ def main(c):
     rnd = random.Random(c.seed)
     c.add_mc("HashStream (buffering shared by every SHA-256 path)", vlib.tlc(g.SD, "HashStream", "HashStreamMC.cfg", workers=4, timeout=600))
     c02.model_checks(c)
-    lines = (g.hash_lines(rnd, c.pick(200, 8000)) + g.crc_lines(rnd, c.pick(600, 15000)) + g.aes_lines(rnd, c.pick(200, 4000)) +
+    lines = (g.aesfresh_lines(rnd) + g.hash_lines(rnd, c.pick(200, 8000)) + g.crc_lines(rnd, c.pick(600, 15000)) + g.aes_lines(rnd, c.pick(200, 4000)) +
              g.ctr_lines(rnd, c.pick(500, 12000), c.pick(4, 30)))
     # only SHA-256 / CRC32C / AES / AES-CTR have accelerated paths
     lines = [l for l in lines if not l.startswith("hash sha1") and not l.startswith("hash md5")]
@@ -17,7 +17,9 @@ def main(c):
     c.cov["calls_per_build"] = len(lines)
     outs = {}
     per = 200
-    progs = ["prog crypto\n" + "\n".join(lines[i:i + per]) + "\nend\n" for i in range(0, len(lines), per)]
+    # (which allocation a refused request hits depends on the build, so the first-use cases are validated per build only)
+    xl = [l for l in lines if not l.startswith("aesfresh")]
+    progs = ["prog crypto\n" + "\n".join(xl[i:i + per]) + "\nend\n" for i in range(0, len(xl), per)]
     for cfg in g.CONFIGS:
         exe = g.build(c, cfg)
         # run once more outside conformance to collect the outputs for the cross-build comparison
